@@ -197,17 +197,13 @@ class Ctx:
                 self.obligations.append(dict(name=f, ok=False, axioms=[], reason="missing file"))
                 continue
             names += [(n, ln, f) for n, ln in theorems_of(f)]
-        # forbidden tokens anywhere in the Lean sources
+        # forbidden tokens anywhere in the import closure of the obligations (project files only)
         bad_tokens = []
-        for d, _, fs in os.walk(LEAN):
-            if "/.lake" in d:
-                continue
-            for fn in fs:
-                if fn.endswith(".lean"):
-                    p = os.path.join(d, fn)
-                    m = FORBIDDEN.search(strip_lean_comments(open(p).read()))
-                    if m:
-                        bad_tokens.append("%s: %s" % (os.path.relpath(p, LEAN), m.group(0).strip()))
+        for p in sorted(self._closure(files)):
+            m = FORBIDDEN.search(strip_lean_comments(open(p).read()))
+            if m:
+                bad_tokens.append("%s: %s" % (os.path.relpath(p, LEAN), m.group(0).strip()))
+        self.extra["lean_files_audited"] = len(self._closure(files))
         rc, out = self._lake(modules)
         failed_lines = {}
         dep_failure = None
@@ -256,6 +252,21 @@ class Ctx:
         failed = [o for o in self.obligations if not o["ok"]]
         self.log("obligations %d, discharged %d" % (len(self.obligations), len(self.obligations) - len(failed)))
         return failed
+
+    @staticmethod
+    def _closure(files):
+        """project-local transitive imports of the given Lean files"""
+        seen, todo = set(), [f for f in files if os.path.exists(f)]
+        while todo:
+            f = todo.pop()
+            if f in seen:
+                continue
+            seen.add(f)
+            for m in re.finditer(r"^\s*import\s+((?:Goat|Driver)\.[\w.]+)", open(f).read(), re.M):
+                g = os.path.join(LEAN, m.group(1).replace(".", "/") + ".lean")
+                if os.path.exists(g):
+                    todo.append(g)
+        return seen
 
     @staticmethod
     def _owner(names, f, line):
